@@ -33,6 +33,9 @@ class Wallet:
             OutputReference
         ] = set()  # TODO save to disk too at some point.
 
+        # keys that were handed out (again) while no unused keys were left; see restore_annotated_public_key
+        self.reused_public_keys: List[bytes] = []
+
     def __repr__(self) -> str:
         return "Wallet w/ %s keypairs" % len(self.keypairs)
 
@@ -52,12 +55,20 @@ class Wallet:
             # size) or 100.000 SKEPTI. What this says about distribution of wealth and the role (some of the) skepticoin
             # developers see for themselves in the future of cryptocurrency is left as an excercise for the reader.
             print("WARNING: Re-using mining keys. Privacy may be reduced via statistical chain analysis.")
-            return random.choice(list(self.keypairs.keys()))
+            public_key = random.choice(list(self.keypairs.keys()))
+            self.reused_public_keys.append(public_key)
+            return public_key
         public_key = self.unused_public_keys.pop()
         self.public_key_annotations[public_key] = annotation
         return public_key
 
     def restore_annotated_public_key(self, public_key: bytes, annotation: str) -> None:
+        if public_key in self.reused_public_keys:
+            # This hand-out did not take the key from the unused pool (the pool was empty); the key is still in use
+            # under the annotation of its earlier hand-out, so it must not be returned to the pool.
+            self.reused_public_keys.remove(public_key)
+            return
+
         del self.public_key_annotations[public_key]
         self.unused_public_keys.append(public_key)
 
